@@ -69,13 +69,16 @@ def run(ctx):
             rdirs.append(busy)
             if ctx.tier == "thorough":
                 rdirs.append(common.REPO + "/inference")
-            for d in rdirs:
-                rc2, o2, e2 = common.sh2([os.path.join(common.BIN, "harness_race"), "analyze", "-dir", d, "./..."], timeout=1800)
+            templ = os.path.join(common.VERIF, "corpus", "c17")
+            runs = [(d, []) for d in rdirs] + [(templ, ["-flag", "experimental-anonymous-function=true"])] * (6 if ctx.tier == "quick" else 30)
+            rdirs = rdirs + [templ]
+            for d, extra in runs:
+                rc2, o2, e2 = common.sh2([os.path.join(common.BIN, "harness_race"), "analyze", "-dir", d] + extra + ["./..."], timeout=1800)
                 if rc2 != 0 and "DATA RACE" not in e2 + o2:
                     races.append("%s: the -race harness failed: %s" % (d, (e2 + o2)[-600:]))
                 if "DATA RACE" in e2 or "DATA RACE" in o2:
                     races.append("%s: %s" % (d, (e2 + o2)[:1500]))
-            ctx.obligation("race detector: the harness built with -race analysing the corpora and nilaway's own inference package reports no data race", not races)
+            ctx.obligation("race detector: the harness built with -race analysing the corpora (and, with -experimental-anonymous-function, the templ corpus, repeatedly) reports no data race", not races)
             for r in races[:2]:
                 ctx.violation("race", "C16 fails on the real tool: data race reported:\n%s" % r)
             shutil.rmtree(busy, ignore_errors=True)
